@@ -116,6 +116,14 @@ def calls():
         r = [sorted(map(str, o)), len(o), sorted(map(str, o.subjects())), (URIRef("urn:s"), None, None) in o]
         r.append(sorted(map(str, o[URIRef("urn:s")])))
         r.append(sorted(map(str, o.triples((None, URIRef("urn:p") * "+", None)))))
+        # closure helpers (their `seen`/`remember` bookkeeping must be per call)
+        for start in sorted(set(o.subjects()), key=str)[:3]:
+            r.append(sorted(map(str, o.transitive_objects(start, URIRef("urn:p")))))
+            r.append(sorted(map(str, o.transitive_subjects(URIRef("urn:p"), start))))
+            r.append(sorted(map(str, o.transitiveClosure(lambda n, g_: g_.objects(n, None), start))))
+        r.append(sorted(map(str, o.subject_objects(URIRef("urn:p")))))
+        r.append(sorted(map(str, o.predicate_objects(URIRef("urn:s")))))
+        r.append(str(o.value(URIRef("urn:s"), URIRef("urn:p"))))
         if hasattr(o, "quads"):
             r.append(sorted(map(str, o.quads())))
             r.append(sorted(str(g.identifier) for g in o.graphs()) if hasattr(o, "graphs") else None)
